@@ -18,7 +18,7 @@ NCASES = {"quick": 600, "thorough": 6000}
 GEN_BUDGET_S = {"quick": 30, "thorough": 600}
 MAX_SHRINKS = 8
 MAX_PER_CLASS = 3     # distinct (stream/topology) keys listed per failure class
-STREAMS = ["clean"] * 11 + ["overlap"] * 3 + ["outside"] * 2 + ["malformed"] * 2 + ["internal"] * 2 + ["hetero"] * 3 + ["tiers"] * 3
+STREAMS = ["clean"] * 11 + ["overlap"] * 3 + ["outside"] * 2 + ["malformed"] * 2 + ["internal"] * 2 + ["hetero"] * 3 + ["tiers"] * 3 + ["allow"] * 3
 
 
 class Ev:
@@ -81,7 +81,7 @@ class Ev:
 
 class Ctx:
     def __init__(self, run, exe, drv):
-        self.run, self.exe, self.drv, self.env = run, exe, drv, C.run_env()
+        self.run, self.exe, self.drv, self.env = run, exe, drv, C.run_env(HWV_REPO=C.REPO)
         self.types = dict(G.DEFAULT_TYPES)
         self.stats = Counter()
         self.shrinks = 0
